@@ -28,7 +28,7 @@ PROPS = {
         "assumptions": COMMON_ASSUME,
     },
     "C08": {
-        "rules": ["R-SAVEPURE", "R-KILLUSE", "R-TAGSELF", "R-RESAVE", "R-EXTENT", "R-PADDING"],
+        "rules": ["R-SAVEPURE", "R-KILLUSE", "R-DANGLING", "R-TAGSELF", "R-RESAVE", "R-EXTENT", "R-PADDING"],
         "explanation": "Interprocedural effect analysis (MOD/FREE summaries over access-path regions with pointer roots, fixpoint over "
                        "the call graph, virtual calls by class hierarchy) shows that the call closure of every save in the persisted cone "
                        "writes only the stream and frees nothing; tag identity, element-to-field restoration and extent/padding rules show "
